@@ -346,6 +346,10 @@ pub fn run_supply_check(check: &str, tier: Tier, seed: u64, index: u64, scratch:
             _ => 2,
         };
         t.fixed_mtime = er.chance(1, 3);
+        // the caller may ask for a named summary (the parameter the recursion uses for delegated levels)
+        if check != "C15" && er.chance(1, 4) {
+            t.step_name = Some(gen::simple_name(&mut er));
+        }
     }
     // the fault-free world must be accepted, otherwise nothing about the faulted one is decided
     let before = rec.evaluations;
